@@ -1,16 +1,22 @@
 #!/bin/sh
 # Offline set-up: verifies the tools the checks need and warms the Go build
-# cache by building the harness worker once against /repo (rebuilt by every check).
+# cache by building the harness worker once against /repo, exactly as every check does
+# (go build -tags verif, facade extensions overlaid from harness/facade_ext).
 set -e
 cd "$(dirname "$0")"
-export GOFLAGS=-mod=mod GOPROXY=off GOSUMDB=off GOTOOLCHAIN=local
-for t in go java python3 timeout; do command -v $t >/dev/null || { echo "missing tool: $t"; exit 1; }; done
+for t in go java timeout /usr/bin/python3; do command -v $t >/dev/null || { echo "missing tool: $t"; exit 1; }; done
 test -f /opt/veriftools/tla/tla2tools.jar || { echo "missing tla2tools.jar"; exit 1; }
 chmod +x vcheck
-T=$(mktemp -d)
-trap 'rm -rf "$T"' EXIT
-cp -r harness "$T/h"
-cp /repo/go.sum "$T/h/go.sum"
-(cd "$T/h" && go build -trimpath -tags verif -o "$T/worker" ./cmd/worker) || { echo "worker does not build"; exit 1; }
 mkdir -p evidence replays
-echo "setup ok"
+/usr/bin/python3 - <<'PY'
+import sys
+sys.path.insert(0, ".")
+from vlib import core
+ctx = core.Ctx("SETUP", "quick", 1)
+try:
+    ctx.build_worker()
+except core.Inconclusive as e:
+    print("setup failed:", e)
+    sys.exit(1)
+print("setup ok")
+PY
